@@ -68,7 +68,8 @@ def run(ctx):
         elif any(e in viol for e in ("RecCanonHasHeads", "RecCanonLinked", "RecCanonEndsAtHead", "RecStopsStrict", "RecHealsStrict", "RecLookupSound")):
             line = ("PENDING-FINDING property=C39 C39-F4 reproduced on the real code (%s): a crash between the batches of reorg/SetCanonical "
                     "leaves a head without number index entries (Stop then dereferences nil)" % viol.strip()[:60])
-            print(line)
+            if not ctx.known_finding("C39-F4", line):
+                print(line)   # TODO-KNOWN-FINDING: pending until known_findings.json lists C39-F4
             ctx.notes.append(line)
         else:
             ctx.reject_trace("chain/ChainTrace", fp, c2, r2, cfg="chain/ChainTraceRecStrict", desc="C39-F4 replay violates an unexpected property: %s" % viol)
